@@ -68,6 +68,7 @@ NewArena ==
     adopted |-> {},           \* targets of strong stores made while a cycle was running (C06)
     wadopted |-> {},          \* targets of weak stores made while a cycle was running (C06)
     dropping |-> FALSE,
+    last |-> <<>>,            \* <<phase, count, debt>> at the end of the last operation on this arena
     \* pacing (C09/C10).  pk: "default" (the crate's non-dyadic default), "exact" (dyadic factors in
     \* 16ths, logged), "stepping" (the harness drives increments; only mf is known)
     pk |-> "default", pc |-> [sf |-> 0, ms |-> 0, mf |-> 0, tf |-> 0, kf |-> 0, df |-> 0, ff |-> 0],
@@ -82,6 +83,7 @@ Init0 ==
     owner |-> <<>>, kind |-> <<>>, dtor |-> <<>>,
     strong |-> <<>>, weak |-> <<>>,
     destructed |-> {}, released |-> {}, everDropped |-> {},
+    hs |-> <<>>,              \* DynamicRoot handle number -> [set, obj] (handles live outside the arenas)
     cb |-> "", cbArena |-> 0, cbMutated |-> FALSE,
     call |-> "", callArena |-> 0, callBefore |-> "", callReach |-> {}, callRes |-> {},
     callCountBefore |-> 0, callDebtPos |-> FALSE,
@@ -106,7 +108,9 @@ Check(m, ante, ok, prop, rule, i, o) ==
   IF ~ante THEN m
   ELSE LET m1 == Hit(m, prop \o "." \o rule) IN IF ok THEN m1 ELSE Flag(m1, prop, rule, i, o)
 
-Kids(m, o) == IF o \in DOMAIN m.strong THEN Range(m.strong[o]) ELSE {}
+\* strong children: what the mutator stored, plus -- for a DynamicRootSet -- what live handles keep stashed
+Kids(m, o) == (IF o \in DOMAIN m.strong THEN Range(m.strong[o]) ELSE {})
+              \cup {m.hs[k].obj : k \in {x \in DOMAIN m.hs : m.hs[x].set = o}}
 WKids(m, o) == IF o \in DOMAIN m.weak THEN Range(m.weak[o]) ELSE {}
 
 RECURSIVE Close(_, _)
@@ -132,7 +136,7 @@ Known(m, o) == o \in DOMAIN m.owner
 (***************************************************************************)
 OnReset(m, e, i) ==
   \* a new behaviour: forget the shadow, keep the verdict
-  [Init0 EXCEPT !.viol = m.viol, !.nviol = m.nviol, !.vcount = m.vcount, !.hits = m.hits,
+  [Init0 EXCEPT !.hs = <<>>, !.viol = m.viol, !.nviol = m.nviol, !.vcount = m.vcount, !.hits = m.hits,
                 !.beh = Get(e, "beh", -1), !.behaviours = m.behaviours + 1]
 
 OnArenaNew(m, e, i) ==
@@ -187,8 +191,9 @@ MaxI(x, y) == IF x >= y THEN x ELSE y
 OnSetPacing(m, e, i) ==
   LET a == ArenaOf(e) IN
   IF Get(e, "stepping", FALSE)
-  THEN [m EXCEPT !.ar[a].pk = "stepping", !.ar[a].pc.mf = e.mf, !.ar[a].cyc.valid = FALSE, !.ar[a].slp.valid = FALSE]
-  ELSE [m EXCEPT !.ar[a].pk = "exact",
+  THEN [m EXCEPT !.ar[a].pk = "stepping", !.ar[a].pc.mf = e.mf, !.ar[a].cyc.valid = FALSE, !.ar[a].slp.valid = FALSE,
+                 !.ar[a].last = <<>>]
+  ELSE [m EXCEPT !.ar[a].pk = "exact", !.ar[a].last = <<>>,
                  !.ar[a].pc = [sf |-> e.sf, ms |-> e.ms, mf |-> e.mf, tf |-> e.tf, kf |-> e.kf, df |-> e.df, ff |-> e.ff],
                  !.ar[a].cyc.valid = FALSE, !.ar[a].slp.valid = FALSE]
 
@@ -197,7 +202,36 @@ OnAdjustDebt(m, e, i) ==
       \* C10 r4: while positive, the debt grows by exactly x (exact for dyadic pacings)
       m1 == Check(m, m.ar[a].pk \in {"exact", "stepping"} /\ e.before > 0 /\ e.after > 0 /\ e.count > 0,
                   e.after - e.before = e.xQ, "C10", "r4", i, e.xQ)
-  IN [m1 EXCEPT !.ar[a].cyc.negAdj = @ \/ e.xQ < 0, !.ar[a].slp.valid = FALSE]
+  IN [m1 EXCEPT !.ar[a].cyc.negAdj = @ \/ e.xQ < 0, !.ar[a].slp.valid = FALSE,
+                !.ar[a].last = IF @ = <<>> THEN @ ELSE <<@[1], @[2], e.after>>]
+
+\* ---------------------------------------------------------------- C14: DynamicRootSet
+OnStash(m, e, i) ==
+  LET a == ArenaOf(e)
+      m0 == IF MidCycle(m, a) THEN [m EXCEPT !.ar[a].adopted = @ \cup {e.o}] ELSE m
+  IN [Mutated(m0, a) EXCEPT !.hs = [k \in DOMAIN m.hs \cup {e.h} |-> IF k = e.h THEN [set |-> e.set, obj |-> e.o] ELSE m.hs[k]]]
+
+OnCloneHandle(m, e, i) ==
+  \* C14 r4: handle operations never fail, whatever happened to the set or the arena
+  LET m1 == Check(m, TRUE, ~e.panicked, "C14", "r4", i, e.h) IN
+  IF e.panicked \/ e.h \notin DOMAIN m.hs THEN m1
+  ELSE [m1 EXCEPT !.hs = [k \in DOMAIN m.hs \cup {e.h2} |-> IF k = e.h2 THEN m.hs[e.h] ELSE m.hs[k]]]
+
+OnDropHandle(m, e, i) ==
+  LET a == ArenaOf(e)
+      m1 == Check(m, TRUE, ~e.panicked, "C14", "r4", i, e.h)
+      m2 == [m1 EXCEPT !.hs = [k \in DOMAIN m.hs \ {e.h} |-> m.hs[k]]]
+  IN IF a \in DOMAIN m.ar THEN Mutated(m2, a) ELSE m2
+
+\* a handle presented to a set that the root holds: contains / try_fetch / fetch
+OnFetch(m, e, i) ==
+  LET issued == e.h \in DOMAIN m.hs /\ m.hs[e.h].set = e.set
+      \* C14 r1: a handle is accepted only by the set that issued it (contains, try_fetch and the
+      \* panicking fetch agree)
+      m1 == Check(m, TRUE, e.contains = issued /\ e.ok = issued /\ e.fetch_panics = ~issued, "C14", "r1", i, e.h)
+      \* C14 r2: fetch returns a pointer to the very object that was stashed
+      m2 == Check(m1, issued /\ e.ok, e.o = m.hs[e.h].obj, "C14", "r2", i, e.h)
+  IN m2
 
 \* observations common to cb_begin / cb_end / call_begin / call_end / drop_begin
 ObserveState(m, e, i, outsideCb) ==
@@ -214,7 +248,12 @@ ObserveState(m, e, i, outsideCb) ==
       sl == m.ar[a].slp
       m5 == Check(m4, sl.valid /\ e.phase = "Sleeping" /\ e.count > 0 /\ e.ev # "call_end",
                   e.debt_pos = (16 * sl.A > sl.T), "C09", "r5", i, sl.A)
-  IN m5
+      \* C20 r2: nothing that happened since the last operation on THIS arena (operations on other
+      \* arenas, handle clones and drops) changed its phase, count or debt
+      now == <<e.phase, e.count, e.debtQ>>
+      starts == e.ev \in {"cb_begin", "call_begin"}
+      m6 == Check(m5, starts /\ m.ar[a].last # <<>>, now = m.ar[a].last, "C20", "r2", i, a)
+  IN [m6 EXCEPT !.ar[a].last = IF starts THEN @ ELSE now]
 
 OnCbBegin(m, e, i) ==
   LET a == ArenaOf(e)
@@ -488,6 +527,10 @@ Step(m0, e, i) ==
     [] ev = "drop_end"   -> OnDropEnd(m, e, i)
     [] ev = "end"        -> OnEnd(m, e, i)
     [] ev = "set_pacing" -> OnSetPacing(m, e, i)
+    [] ev = "stash"      -> OnStash(m, e, i)
+    [] ev = "clone_handle" -> OnCloneHandle(m, e, i)
+    [] ev = "drop_handle" -> OnDropHandle(m, e, i)
+    [] ev = "fetch"      -> OnFetch(m, e, i)
     [] ev = "adjust_debt" -> OnAdjustDebt(m, e, i)
     [] OTHER             -> m       \* skip, adjust_debt, ...: no rule
 
